@@ -274,8 +274,13 @@ def recurrence_rules(chk, fi):
                loc=fi.loc(st), stmt=key)
         used = {n.id for n in ast.walk(rhs) if isinstance(n, ast.Name)} - state - rec_names - set(var)
         rebound = sorted(used & assigned_in_loop & variant - set(step_env))
+        # a loop-carried name that is stored whole into a state array (S[k + 1] = c) is the state itself held in a variable, not a
+        # coefficient: the recurrence then runs through variables this syntactic rule does not follow
+        carried = {s_.value.id for s_, _ in stores if isinstance(s_.value, ast.Name)} & zeros_init
         chk.ob("R-TINV", c + "{rebinding}", "coefficients are not re-bound inside the loop", not rebound,
-               derived="re-bound: %s" % rebound if rebound else "none of %s assigned in the loop" % sorted(used), loc=fi.loc(st), stmt=key)
+               derived="re-bound: %s%s" % (rebound, " (the state carried in loop variables: recurrence not followed)" if set(rebound) <= carried else "")
+               if rebound else "none of %s assigned in the loop" % sorted(used), loc=fi.loc(st), stmt=key,
+               inconclusive=bool(rebound) and set(rebound) <= carried)
     notz = sorted(s for s in state if s not in zeros_init)
     chk.ob("R-TINV", c + "{zero-state}", "state arrays are created by np.zeros (zero initial displacement and velocity)", not notz,
            derived="not zero-initialised: %s" % notz if notz else "zeros: %s" % sorted(state), loc=fi.loc(loop))
